@@ -56,6 +56,9 @@ for nidl in (True, False):
     beh("f05_reused_nonce" + ("n" if nidl else ""), ["C05"], [A("k1", "e1", "n1"), NID("k1"), G("k1", "k1", hasState=True, ssig="k1"), dict(G("k1", "k1", hasState=True, ssig="kx"), reuse=True),
                                                          dict(G("k1", "k1", hasState=True, ssig="none"), reuse=True), dict(G("k1", "k1"), reuse=True), R("k1"), dict(G("k1", "k1"), reuse=True),
                                                          A("k2", "e1", "n2"), NID("k2"), G("k2", "k2", "N1"), dict(G("k2", "k2", "N1", hasState=True, ssig="kx"), reuse=True)], nidl=nidl)
+# node ids one of which is a prefix of the other, on the back end that looks records up by node id itself
+beh("f05_nid_prefix", ["C05"], [A("k1", "e1", "n1"), A("k2", "e1", "n2"), NID("k1", "N1"), NID("k2", "N10"), G("k1", "k1", "N1"), G("k2", "k2", "N10"), G("k1", "k2", "N1"), G("k2", "k2", "N1"), G("k2", "k1", "N10"),
+                                G("k1", "k2", "N1", hasState=True, ssig="k2")], nidl=True, so=True)
 def FR(t, ka, kb, e="e1", be="inmem"): return dict(op="FetchRace", t=t, ka=ka, kb=kb, e=e, be=be)
 # overlapping fetches presenting the same token: known finding KF-C06-1 on the in-memory back end; the file back end refuses the loser
 beh("kf_c06_race", ["C06", "C01"], [T("t1", "s1"), FR("t1", "k1", "k2"), F("k3", "e1", "t1"), T("t2"), FR("t2", "k3", "k1"), FR("t2", "k3", "k2")])
